@@ -16,8 +16,8 @@ EXPLANATION = (
     "Ready (future) / Ready(None) (merged stream) the slot-map REMOVE of the same index is must-pass-through before the "
     "function returns or drains again, and every caller of the drain function handles the Ready arm by remove or re-arm; "
     "R5.3 REMOVE overwrites the slot through Pin::set (drop in place) and no slot/child value flows into mem::replace/"
-    "swap/take/forget or ptr::read/write/copy; R5.4 adapters poll upstream only through the Some arm of "
-    "Option::as_pin_mut and set it to None on Ready(None). Decided in full at the structural level.")
+    "swap/take/forget or ptr::read/write/copy. (The fusing of the adapters' upstream, R5.4, is C10's clause and is "
+    "evaluated there.) Decided in full at the structural level.")
 ASSUMPTIONS = [
     "dev-profile MIR at mir-opt-level=0 represents the source",
     "Pin::set drops the previous value in place before writing",
@@ -78,11 +78,11 @@ def r5_1(ctx, R):
     ctx.floor("R5.1", "child-poll-sites", n, 1)
 
 
-def r5_2(ctx, R):
+def r5_2(ctx, R, only_in=None):
     ctx.rule("R5.2", "Ready => vacated before return: futures: R2.1; merged streams: on the drained (i, None) path "
                      "REMOVE(i) is must-pass-through before the next DRAIN call or return and on (i, Some) no REMOVE; "
                      "sibling rule: every caller of DRAIN handles its Ready(Some) arm by REMOVE or MARK")
-    c02.r2_1(ctx, R)
+    c02.r2_1(ctx, R, only_in=only_in)
     ctx.rule("R2.1", "see C02 R2.1 (shared): vacate <=> Ready for future-polling callers of DRAIN")
     rem, mark = R.remove_fn, R.mark_fn
     n = 0
@@ -205,4 +205,3 @@ def run(ctx):
     r5_1(ctx, R)
     r5_2(ctx, R)
     r5_3(ctx, R)
-    r5_4(ctx, R)
